@@ -7,6 +7,7 @@
 (*   Log2   integer part by halving, fraction bit by bit by squaring         *)
 (*   Ln     log2 / LOG2_E                                                    *)
 (*   Exp    Maclaurin series until the term vanishes, reciprocal for x < 0   *)
+(*   Pow    exp(y ln x)                                                      *)
 (*   Powi   repeated checked multiplication, reciprocal for n < 0            *)
 (* Every operator returns [k, v, it]: k = "ok" / "err" as the function       *)
 (* returns Ok / Err, or "undef" where a plain (unchecked) operator of the    *)
@@ -130,6 +131,18 @@ ExpWith(x0, L, maxTerms) ==
 
 Exp(x0, L)     == ExpWith(x0, L, LF(L) + 4 * LI(L))       \* as repaired by /repo commit 4c76d47
 ExpOrig(x0, L) == ExpWith(x0, L, LF(L))                   \* as originally coded: frac_nbits() terms (refuted by MC_MathAlg_refute)
+
+(* ------------------------------ pow ------------------------------------- *)
+\* pow(x, y) = exp(ln(x)?.checked_mul(y)?)?; the final overflowing_to_num::<D>() is the identity for S = D
+Pow(x, y, L) ==
+  IF ZIsZero(x) THEN MAOk(Z0, 0)
+  ELSE IF ZIsZero(y) THEN (IF Fits(MAOne(L), L) THEN MAOk(MAOne(L), 0) ELSE MAUndef(0))
+  ELSE IF ZEq(y, MAOne(L)) THEN MAOk(x, 0)
+  ELSE LET l == Ln(x, L) IN
+       IF l.k # "ok" THEN l
+       ELSE LET m == MACMul(l.v, y, L) IN
+            IF ~m[1] THEN MAErr(l.it)
+            ELSE LET r == Exp(m[2], L) IN [k |-> r.k, v |-> r.v, it |-> l.it + r.it]
 
 (* ------------------------------ powi ------------------------------------ *)
 RECURSIVE PowiLoop(_, _, _, _, _, _)
